@@ -170,6 +170,30 @@ pub fn replay(behaviours: &str, out: &mut Outcome) {
             let src = render_container(kind, &types);
             check_verdict(out, &src, kind, det, &sizes, &verdict, container_line(kind));
         }
+        // two structs of the same NAME in different scopes (file level and inside a contract): each is judged on its own
+        if sizes.len() >= 2 && idx % 3 == 0 {
+            let mut members = String::new();
+            for (i, t) in types.iter().enumerate() {
+                members.push_str(&format!("    {} m{};\n", t, i));
+            }
+            let src = format!("pragma solidity 0.8.17;\n\nstruct Rec {{\n{}}}\ncontract Outer {{\n  struct Rec {{\n{}  }}\n}}\n", members, members);
+            let (l1, l2) = (3, 3 + types.len() as i32 + 3);
+            match pack_struct.run(&src) {
+                Ok(lines) => {
+                    let stray: Vec<i32> = lines.iter().cloned().filter(|l| *l != l1 && *l != l2).collect();
+                    let both = lines.contains(&l1) && lines.contains(&l2);
+                    let none = !lines.contains(&l1) && !lines.contains(&l2);
+                    if !stray.is_empty() || (verdict == "must" && !both) || (verdict == "mustnot" && !none) || (!both && !none) {
+                        out.violate(
+                            "pack-same-name-structs",
+                            format!("pack_struct_variables reports {:?} for two structs named Rec (lines {} and {}) with member sizes {:?}, verdict {}", lines, l1, l2, sizes, verdict),
+                            json!({"call": "pack-same-name", "source": src, "detector": "pack_struct_variables", "observed": lines, "lines": [l1, l2], "verdict": verdict, "sizes": sizes}),
+                        );
+                    }
+                }
+                Err(m) => out.violate("pack-panic:samename", m, json!({"source": src, "detector": "pack_struct_variables"})),
+            }
+        }
         if idx % 997 == 0 {
             out.sample(json!({"sizes": sizes, "slots": expect, "verdict": verdict, "types": types}));
         }
